@@ -21,4 +21,12 @@ theorem gen_retryable_guard : Generated.C11.retryableGuard = true := by decide
 /-- conc aggregates task errors with errors.Join under the installed toolchain (the model's `wrap` / `pair`) -/
 theorem gen_conc_join : Generated.C11.concJoin = "errors.Join" := by decide
 
+/-- `Retryable()` of the six process kinds, as the model's `retryableOf` has it: only the two signings are retryable -/
+theorem gen_retryable : Generated.C11.retryable =
+    ["ecdsa/keygen=false", "ecdsa/signing=true", "ecdsa/resharing=false",
+     "frost/keygen=false", "frost/signing=true", "frost/resharing=false"] ∧
+    (retryableOf .ecdsaKeygen, retryableOf .ecdsaSigning, retryableOf .ecdsaResharing,
+     retryableOf .frostKeygen, retryableOf .frostSigning, retryableOf .frostResharing) =
+      (false, true, false, false, true, false) := by decide
+
 end Sygma.C11
